@@ -156,13 +156,27 @@ Qed.
 (* initiator (active): a Select.rsp with status 0 that hits our pending Select transaction commits
    Selected in the same dispatch step that routes it *)
 Theorem select_rsp_commits : forall s n f id, f_pt f = 0 -> f_st f = 2 -> f_b3 f = 0 -> f_body f = [] ->
-  reg_get (gen s) (f_sys f) (reg s) = Some id -> st s = NS ->
+  route_ctl p s f = Some id -> st s = NS ->
   st (fst (dispatch p s n f)) = SEL.
 Proof.
   intros s n f id PT ST B3 BD RG NSs. unfold dispatch. rewrite PT, ST, BD, RG. cbn. rewrite B3. cbn.
   assert (E : st (offer s id (CMsg n f)) = NS).
   { unfold offer. destruct (get id (calls s)) as [c|]; [destruct (c_chan c)|]; exact NSs. }
   rewrite E. reflexivity.
+Qed.
+
+(* the registry hit of a control response: an entry under its system bytes in the current generation
+   that — with the data-only registry — does not belong to a data transaction *)
+Lemma route_ctl_spec : forall s f id, route_ctl p s f = Some id <->
+  reg_get (gen s) (f_sys f) (reg s) = Some id /\ DW p && data_waiter s id = false.
+Proof.
+  intros s f id. unfold route_ctl. destruct (reg_get (gen s) (f_sys f) (reg s)) as [j|].
+  - destruct (DW p && data_waiter s j) eqn:E; split.
+    + discriminate.
+    + intros [X Y]. inversion X; subst. congruence.
+    + intros X. inversion X; subst. auto.
+    + intros [X Y]. exact X.
+  - split; [discriminate | intros [X _]; discriminate].
 Qed.
 
 (** * Who changes the connection state *)
@@ -314,7 +328,7 @@ End Pipeline.
     is answered Reject(reason 3) and changes nothing else: in particular a Select.rsp(0) commits
     Selected only on a registry hit. *)
 Theorem orphan_rsp_no_commit : forall p s n f, f_pt f = 0 -> f_body f = [] ->
-  (f_st f = 2 \/ f_st f = 4 \/ f_st f = 6) -> reg_get (gen s) (f_sys f) (reg s) = None ->
+  (f_st f = 2 \/ f_st f = 4 \/ f_st f = 6) -> route_ctl p s f = None ->
   dispatch p s n f = (enq_int s (reject_not_open f), []) /\
   st (enq_int s (reject_not_open f)) = st s /\ calls (enq_int s (reject_not_open f)) = calls s /\
   f_st (reject_not_open f) = 7 /\ f_b3 (reject_not_open f) = 3 /\ f_b2 (reject_not_open f) = f_st f /\
@@ -322,4 +336,13 @@ Theorem orphan_rsp_no_commit : forall p s n f, f_pt f = 0 -> f_body f = [] ->
 Proof.
   intros p s n f PT BD ST RG. split; [|repeat split; reflexivity].
   unfold dispatch. rewrite PT, BD, RG. destruct ST as [E|[E|E]]; rewrite E; reflexivity.
+Qed.
+
+(* with the data-only registry a control response that reuses an OPEN DATA transaction's system bytes
+   is such a miss: Reject(3) to the peer, the sender (its channel, its registration) untouched *)
+Theorem colliding_ctl_rsp_is_miss : forall p s f id c, DW p = true ->
+  reg_get (gen s) (f_sys f) (reg s) = Some id -> get id (calls s) = Some c -> c_kind c = KSync ->
+  route_ctl p s f = None.
+Proof.
+  intros p s f id c D RG G K. unfold route_ctl. rewrite RG. unfold data_waiter. rewrite G, K, D. reflexivity.
 Qed.
